@@ -265,6 +265,9 @@ func interpCases(c *Ctx, n int, tweak func(cfg *GenCfg, i int), post func(s *Sce
 		case "effectsCarry":
 			prog = g.effectsCarryProgram()
 			c.count("directed:effectsCarry")
+		case "repeatDest":
+			prog = g.repeatDestProgram()
+			c.count("directed:repeatDest")
 		case "overdraftOrigin":
 			prog = g.overdraftOriginProgram()
 			c.count("directed:overdraftOrigin")
